@@ -905,6 +905,55 @@ theorem api_request_effect (authorized : Bool) (s : PState) (req : ApiReq) :
       · rw [← hop.2]; rfl
       · rw [← hop.2]; rfl
 
+
+/-- **A batch request with a bad body changes nothing**: malformed JSON, an
+unknown field, a body over the size cap, `keys` missing / null / empty — the
+handler answers 400 before it touches the list (and 401 comes first when the
+token is wrong); only a well-formed non-empty `keys` list within the cap becomes
+the one `mutate` step, with exactly those keys.  The cap itself is the
+regenerated fact `max_batch_body` (at most 8 MiB). -/
+theorem bad_batch_body_is_noop (authorized isSet : Bool) (s : PState) (body : BatchBody) :
+    ((apiBatch authorized isSet s body).2 ≠ 200 → (apiBatch authorized isSet s body).1 = s) ∧
+    ((apiBatch authorized isSet s body).2 = 200 ↔ authorized = true ∧ ∃ ks, body = .keys ks ∧ ks ≠ []) ∧
+    (∀ ks, authorized = true → body = .keys ks → ks ≠ [] →
+        (apiBatch authorized isSet s body).1 =
+          step s (.mutate (if isSet then .setBatch ks else .removeBatch ks))) ∧
+    SdnsVerif.Gen.C18.max_batch_body ≤ 8 * 1024 * 1024 := by
+  refine ⟨?_, ?_, ?_, by decide⟩
+  · intro h
+    unfold apiBatch at *
+    cases authorized with
+    | false => rfl
+    | true =>
+      simp only [Bool.not_true, Bool.false_eq_true, if_false] at *
+      cases hb : readBatchKeys body with
+      | none => rfl
+      | some ks => rw [hb] at h; exact absurd rfl h
+  · unfold apiBatch
+    cases authorized with
+    | false => simp
+    | true =>
+      simp only [Bool.not_true, Bool.false_eq_true, if_false, true_and]
+      cases body with
+      | keys ks =>
+        by_cases he : ks = []
+        · subst he; simp [readBatchKeys]
+        · have : ks.isEmpty = false := by cases ks <;> simp at he ⊢
+          simp [readBatchKeys, this, he]
+      | malformed => simp [readBatchKeys]
+      | unknownField => simp [readBatchKeys]
+      | tooLarge => simp [readBatchKeys]
+  · intro ks ha hb hne
+    subst ha; subst hb
+    have : ks.isEmpty = false := by cases ks <;> simp at hne ⊢
+    unfold apiBatch apiStep
+    simp only [Bool.not_true, Bool.false_eq_true, if_false, readBatchKeys, this, if_true]
+    cases isSet <;> simp [apiToOp, this]
+
+example : (apiBatch true true {} .malformed).2 = 400 ∧ (apiBatch true false {} (.keys [])).2 = 400 ∧
+    (apiBatch false true {} (.keys ["a.com".toList])).2 = 401 ∧
+    (apiBatch true true {} (.keys ["a.com".toList])).1.mem.m = ["a.com.".toList] := by decide
+
 /-- `get` is the exact-key lookup: it reports a key only if `Exists` does too,
 unless the whitelist shadows it — and never a wildcard suffix. -/
 theorem get_implies_listed (b : Mem) (k : Str) (h : getExact b k = true) :
